@@ -233,6 +233,8 @@ def children_are_direct(ctx):
 
 
 def run(ctx):
+    from .C15 import refresh_keeps_nothing
+    refresh_keeps_nothing(ctx)          # the cached inode id is re-read every tick: the (path, id) re-resolution of a deferred victim relies on it
     borrowed_fd_not_consumed(ctx)
     children_are_direct(ctx)
     from .C11 import instance_action_args
